@@ -11,7 +11,7 @@ from .execu import State
 from .contract import Kit, Result
 from . import source
 
-SEQ_CAP = 40000
+SEQ_CAP = 200000
 RUNNER = os.path.join(os.path.dirname(os.path.abspath(__file__)), 'runner312.py')
 
 
